@@ -476,6 +476,8 @@ var osFuncs = map[string]string{
 	"WriteFile": "WriteFile", "Exit": "Exit", "Stat": "Stat", "File": "File",
 	"CreateTemp": "CreateTemp", "Rename": "Rename", "Remove": "Remove", "TempDir": "TempDir",
 	"Getpid": "Getpid", "Getppid": "Getppid", "Hostname": "Hostname",
+	"UserCacheDir": "UserCacheDir", "UserConfigDir": "UserConfigDir", "UserHomeDir": "UserHomeDir", "Getwd": "Getwd",
+	"MkdirAll": "MkdirAll", "Mkdir": "Mkdir",
 }
 
 var randFuncs = map[string]string{
